@@ -193,18 +193,16 @@ def allDfltExcept (l : List DNode) (i : Nat) : Bool := (l.eraseIdx i).all (·.fl
 `LYD_MERGE_WITH_FLAGS` -/
 def changeTerm (o : MergeOpts) (ctx : List Ctx) (st : St) (cache : Cache) (i : Nat) (trg : DNode) (sf : Flags)
     (sv : Bytes) : St :=
+  -- `val_change`: LYD_NEW
   let f1 : Flags := if trg.val != sv then { trg.flags with new := true } else trg.flags
-  let fin (f : Flags) : Flags := if o.withFlags then sf else f
-  if f1.dflt && !sf.dflt then
-    let f2 := { f1 with dflt := false }
-    { cur := st.cur.set i ((trg.setVal sv).setFlags (fin f2)), cache := cache, anc := ancDel st.anc }
-  else if !f1.dflt && sf.dflt then
-    let f2 := { f1 with dflt := true }
-    let cur2 := st.cur.set i ((trg.setVal sv).setFlags f2)
-    { cur := st.cur.set i ((trg.setVal sv).setFlags (fin f2)), cache := cache,
-      anc := ancSet ctx st.anc (cur2.all (·.flags.dflt)) }
-  else
-    { cur := st.cur.set i ((trg.setVal sv).setFlags (fin f1)), cache := cache, anc := st.anc }
+  -- the default flag follows the source's
+  let f2 : Flags := { f1 with dflt := sf.dflt }
+  let anc' :=
+    if f1.dflt && !sf.dflt then ancDel st.anc
+    else if !f1.dflt && sf.dflt then
+      ancSet ctx st.anc ((st.cur.set i ((trg.setVal sv).setFlags f2)).all (·.flags.dflt))
+    else st.anc
+  { cur := st.cur.set i ((trg.setVal sv).setFlags (if o.withFlags then sf else f2)), cache := cache, anc := anc' }
 
 /-- unmatched source node: copy or move, `LYD_NEW`, link, remember the first instance -/
 def insertSrc (S : Schema) (o : MergeOpts) (st : St) (cache : Cache) (firstInst : Bool) (src : DNode) : St :=
